@@ -38,14 +38,14 @@ ValueStrictOps ==
     [] MODE = "C03" -> {"flip", "swap", "swapadj", "cofactors", "fromcof"}
     [] MODE = "C06" -> {"decomp", "unate"}
     [] MODE = "C07" -> {"bdd"}
-    [] MODE = "C08" -> {"rel", "iter_start", "iter_next", "vnext"}
+    [] MODE = "C08" -> {"rel", "iter_start", "iter_next", "vnext", "iter_count"}
     [] MODE = "C09" -> {"text", "from_hex"}
     [] MODE = "C10" -> {"conv_rt", "conv_try", "conv_int"}
     [] MODE = "C11" -> CtorOps
     [] OTHER -> {}
 AllOps == CtorOps \cup {"copy", "from_hex", "logic", "flip", "swap", "swapadj", "cofactors", "fromcof",
                         "setbit", "value", "rel", "info", "decomp", "unate", "text", "bdd",
-                        "iter_start", "iter_next", "vnext", "load", "reload", "conv_rt", "conv_try", "clone_from"}
+                        "iter_start", "iter_next", "vnext", "load", "reload", "conv_rt", "conv_try", "clone_from", "iter_count"}
 OutcomeStrictOps == IF MODE = "C17" THEN AllOps ELSE ValueStrictOps
 WFStrict == MODE = "C02"
 
@@ -141,7 +141,12 @@ WalkCovers(w, kind, n) ==
   /\ \/ w.kind = kind
      \/ w.kind = "npn"
      \/ n <= 1 /\ (kind = "p" \/ w.kind = "n")
-WalksOK(e, kind, n) == \A k \in 1..Len(e.walk) : WalkValid(e.walk[k]) /\ WalkCovers(e.walk[k], kind, n)
+\* (a sequence already verified in this trace is not verified again: pcache.seqs)
+WalksOK(e, kind, n) ==
+  \A k \in 1..Len(e.walk) :
+     /\ WalkCovers(e.walk[k], kind, n)
+     /\ (<<e.walk[k].kind, e.walk[k].n, e.walk[k].swaps, e.walk[k].flips>> \in pcache.seqs \/ WalkValid(e.walk[k]))
+SeqsOf(e) == {<<e.walk[k].kind, e.walk[k].n, e.walk[k].swaps, e.walk[k].flips>> : k \in 1..Len(e.walk)}
 CanonVerdict(e) ==
   IF MODE \notin {"C04", "C05"} THEN Adopt(e, it)
   ELSE IF e.out # "ok" THEN (IF MODE = "C04" THEN Bad("canonization did not return") ELSE Poison)
@@ -159,7 +164,8 @@ CanonVerdict(e) ==
   ELSE IF Feasible(e.kind, A.n) THEN
      (\* exact: the orbit minimum by enumeration of the group (the index maps of the input
       \* permutations are cached per size in `pcache`)
-      LET pc == IF e.kind # "n" /\ pcache.n # A.n THEN [n |-> A.n, maps |-> PermMaps(A.n)] ELSE pcache
+      LET pc0 == IF e.kind # "n" /\ pcache.n # A.n THEN [pcache EXCEPT !.n = A.n, !.maps = PermMaps(A.n)] ELSE pcache
+          pc == [pc0 EXCEPT !.seqs = @ \cup SeqsOf(e)]
           m == OrbitMinEnum(e.kind, A.n, A.on, pc.maps)
       IN IF res.on = m THEN [Good(Sx, it) EXCEPT !.pc = pc]
          ELSE IF PrintT(<<"QUERY", l, m>>) THEN [Bad("not the orbit minimum") EXCEPT !.pc = pc] ELSE Bad("?"))
@@ -169,7 +175,7 @@ CanonVerdict(e) ==
       \* theorem (mc/MC_Canon) for the loop code checked exactly at the smaller sizes
       IF e.walk = <<>> THEN Assert(FALSE, <<"no walk recorded", l>>)
       ELSE IF ~e.le_in THEN Bad("result larger than the input")     \* in the library's own ordering
-      ELSE Good(Sx, it))
+      ELSE [Good(Sx, it) EXCEPT !.pc = [pcache EXCEPT !.seqs = @ \cup SeqsOf(e)]])
 
 -----------------------------------------------------------------------------
 (* Two-level forms (C12 - C16).  Events are self-contained: operands (av, bv) and results (r)  *)
@@ -362,9 +368,16 @@ RandEndOK(e) ==
           \* no assignment is constant, and no two assignments are tied (equal or complementary)
           /\ Cardinality(sigs(t)) = 2^n
           /\ {} \notin sigs(t)
-     \* draws differ from one another, also across threads
-     /\ IF n >= 8 THEN Cardinality({tabs[k] : k \in ks}) = Cardinality(ks)
-                  ELSE Cardinality({tabs[k] : k \in ks}) >= (IF n = 0 THEN 2 ELSE 3)
+     \* draws differ from one another, also across threads.  For a fair generator each bound below
+     \* fails with probability < 2^-200 (256 draws per thread, at most 16 threads): all distinct for
+     \* n >= 8, at most 1 (3) coincidences for n = 7 (6); for n <= 5, where coincidences are expected,
+     \* the number of draws equal to their predecessor on the same thread is bounded
+     /\ Cardinality({tabs[k] : k \in ks}) >= Cardinality(ks) - (IF n >= 8 THEN 0 ELSE IF n = 7 THEN 1 ELSE IF n = 6 THEN 3
+                                                                ELSE Cardinality(ks) - (IF n = 0 THEN 2 ELSE 3))
+     /\ n \in 2..5 =>
+          \A t \in 0..(e.threads - 1) :
+             Cardinality({k \in thr(t) : (k - 1) \in thr(t) /\ tabs[k] = tabs[k - 1]})
+               <= (CASE n = 5 -> 6 [] n = 4 -> 19 [] n = 3 -> 59 [] n = 2 -> 119)
 
 RandEndVerdict(e) ==
   IF MODE # "C19" THEN Setup(slots, it)
@@ -408,7 +421,7 @@ Init == /\ l = 1
         /\ it = NoIter
         /\ poisoned = FALSE
         /\ nchk = 0 /\ nviol = 0 /\ nskip = 0
-        /\ pcache = [n |-> 0, maps |-> PermMaps(0)]
+        /\ pcache = [n |-> 0, maps |-> PermMaps(0), seqs |-> {}]
         /\ bstart = 0
 
 StepOf(e) ==
